@@ -420,5 +420,7 @@ def run(R, thorough):
         allok = allok and ok
         done.append("%s depth %d (distinct states per depth %s)" % (name, depth, per))
         if not ok: break
+    R.sample("IntArray [1,2,3]: h0.makeReadOnly() ; h1=h0[mask 101] ; h1 += scalar  -> must raise, contents unchanged through every handle")
+    R.sample("V3fArray: h1=h0[mask 011] ; e=h1[-1] (element reference) ; e.x=77 -> h0[2].x == 77 ; after h0.makeReadOnly(), h0[2] is a detached copy")
     msg = "BFS over operation histories, array length 3, <= %d live handles: %s" % (MAXH, "; ".join(done))
     (R.stage_done if allok else R.stage_partial)(msg)
